@@ -8,8 +8,11 @@ import (
 	"os"
 	"sync"
 	"sync/atomic"
+	"syscall"
 	"testing/synctest"
 	"time"
+
+	"hop.computer/hop/transport"
 )
 
 // Dgram is one datagram on the simulated wire.
@@ -608,6 +611,9 @@ func (ep *Endpoint) ReadMsgUDP(b, oob []byte) (int, int, int, *net.UDPAddr, erro
 	}
 }
 
+// maxUDPPayload is the largest payload of a UDP datagram over IPv4.
+const maxUDPPayload = 65507
+
 // WriteMsgUDP implements transport.UDPLike.
 func (ep *Endpoint) WriteMsgUDP(b, oob []byte, addr *net.UDPAddr) (int, int, error) {
 	select {
@@ -620,6 +626,10 @@ func (ep *Endpoint) WriteMsgUDP(b, oob []byte, addr *net.UDPAddr) (int, int, err
 	}
 	if addr == nil {
 		return 0, 0, &net.OpError{Op: "write", Net: "udp", Err: errors.New("destination address required")}
+	}
+	if len(b) > maxUDPPayload {
+		// what a real UDP socket answers (EMSGSIZE)
+		return 0, 0, &net.OpError{Op: "write", Net: "udp", Err: syscall.EMSGSIZE}
 	}
 	dst := *addr
 	d := &Dgram{Src: ep.addr.Load(), Dst: &dst, Data: append([]byte(nil), b...), SentAt: ep.n.r.Now(), SrcEP: ep}
@@ -645,6 +655,11 @@ func (ep *Endpoint) ReadMsg(b []byte) (int, error) {
 
 // WriteMsg implements transport.MsgConn.
 func (ep *Endpoint) WriteMsg(b []byte) error {
+	// in the MsgConn role the endpoint stands for a transport session, which refuses messages longer than
+	// one packet can carry
+	if len(b) > transport.MaxPlaintextSize {
+		return transport.ErrBufOverflow
+	}
 	_, _, err := ep.WriteMsgUDP(b, nil, nil)
 	return err
 }
